@@ -471,6 +471,65 @@ pub fn register(v: &mut Vec<(&'static str, Op)>) {
         }
     }) as Op));
     v.push(("enc.methods", encoder_ops as Op));
+    // values the encoder refuses: the class of the encode error (and what was written) per configuration
+    v.push(("enc.refuse.refcell", (|b: &[u8]| {
+        let cell = core::cell::RefCell::new(b.first().copied().unwrap_or(0));
+        let guard = cell.borrow_mut();
+        let mut buf = [0u8; 16];
+        let mut e = Encoder::new(Cursor::new(&mut buf[..]));
+        let r = e.encode(&cell).map(|_| ()).map_err(|err| crate::enc_class(&err));
+        let n = e.writer().position();
+        drop(guard);
+        let mut h = Fnv::new();
+        h.bytes(&e.writer().get_ref()[..n]);
+        match r {
+            Ok(()) => {
+                let _ = h.write_str("ok");
+            }
+            Err(c) => {
+                let _ = h.write_str(c);
+            }
+        }
+        h.u64(minicbor::len(&core::cell::RefCell::new(7u8)) as u64);
+        ok_out(h, n)
+    }) as Op));
+    v.push(("enc.refuse.small-sink", (|b: &[u8]| {
+        // a sink that is too small: write error class and position after the failure
+        let k = (b.first().copied().unwrap_or(0) % 5) as usize;
+        let mut buf = [0u8; 4];
+        let mut e = Encoder::new(Cursor::new(&mut buf[..k]));
+        let r = e.array(3).and_then(|e| e.u32(70000)).and_then(|e| e.str("abc")).map(|_| ()).map_err(|err| crate::enc_class(&err));
+        let n = e.writer().position();
+        let mut h = Fnv::new();
+        match r {
+            Ok(()) => {
+                let _ = h.write_str("ok");
+            }
+            Err(c) => {
+                let _ = h.write_str(c);
+            }
+        }
+        ok_out(h, n)
+    }) as Op));
+    #[cfg(feature = "std")]
+    v.push(("enc.refuse.systemtime", (|b: &[u8]| {
+        let secs = b.iter().take(4).fold(1u64, |a, x| (a << 8) | *x as u64);
+        let t = std::time::UNIX_EPOCH - std::time::Duration::from_secs(secs);
+        let mut buf = [0u8; 32];
+        let mut e = Encoder::new(Cursor::new(&mut buf[..]));
+        let r = e.encode(&t).map(|_| ()).map_err(|err| crate::enc_class(&err));
+        let n = e.writer().position();
+        let mut h = Fnv::new();
+        match r {
+            Ok(()) => {
+                let _ = h.write_str("ok");
+            }
+            Err(c) => {
+                let _ = h.write_str(c);
+            }
+        }
+        ok_out(h, n)
+    }) as Op));
     #[cfg(feature = "half")]
     v.push(("enc.f16", (|b: &[u8]| {
         let mut w = [0u8; 4];
